@@ -46,6 +46,8 @@ fn mk_stream(aid: usize, s: &StreamSpec) -> CtlStream {
         ends: s.ends,
         waker: None,
         done: false,
+        infinite: s.infinite,
+        next_idx: 0,
     }));
     world(|w| w.streams.insert(aid, ctl.clone()));
     CtlStream(ctl)
